@@ -391,7 +391,8 @@ class New(cssutils.util._BaseClass):
             self.append(seq, val, 'negation-end', token=token)
             self.context.pop()  # negation is done
             context = self.context[-1]
-            return Constants.simple_selector_sequence + Constants.combinator
+            # no type selector or universal may follow in this sequence
+            return Constants.simple_selector_sequence2 + Constants.combinator
 
         # context: pseudo (at least one expression)
         if val in '+-' and context.startswith('pseudo-'):
@@ -414,16 +415,16 @@ class New(cssutils.util._BaseClass):
             if 'pseudo-element' == context:
                 return Constants.combinator
             else:
-                return Constants.simple_selector_sequence + Constants.combinator
+                return Constants.simple_selector_sequence2 + Constants.combinator
 
         # context: ROOT
-        if '[' == val and 'attrib' in expected:
+        if '[' == val and 'attrib' in expected and 'attrib' != context:
             # start of [attrib]
             self.append(seq, val, 'attribute-start', token=token)
             self.context.append('attrib')
             return Constants.attname
 
-        if val in '+>~' and 'combinator' in expected:
+        if val in '+>~' and 'combinator' in expected and 'attrib' != context:
             # no other combinator except S may be following
             _names = {
                 '>': 'child',
